@@ -54,15 +54,24 @@ func c02(c *core.Ctx) {
 		in := r.Hostile(seeds(), 4096)
 		c02Judge(c, in, "random", true)
 	})
+	// (g) few types, many repetitions, every layout: "first attribute of a type" and the walks are told apart only here
+	c.Section("repeated-types", c.N(3000, 300000), func(_ int64, r *gen.Rand) {
+		pool := [][]uint16{{0x0014, 0x0006, 0x8022}, {0x0012, 0x0012, 0x0020}, {0x0020, 0x8020, 0x0001}, {0x8028, 0x0008, 0x0014}}[r.Intn(4)]
+		s := r.Spec(0, 0)
+		for k := 3 + r.Intn(7); k > 0; k-- {
+			s.Attrs = append(s.Attrs, ref.Attr{Type: pool[r.Intn(len(pool))], Value: r.Bytes(r.Intn(9))})
+		}
+		c02Judge(c, r.WireDirty(s), "repeated-types", true)
+	})
 	// (f) one receiver over a long life: lookups stay "first attribute of the type" after 255/256/257 and
 	// 65535/65536/65537 consecutive decodes without any lookup in between (counters that guard a cache wrap there)
-	c.SectionSerial("long-lived-receiver", 6, func(i int64, r *gen.Rand) {
-		gap := []int{255, 256, 257, 65535, 65536, 65537}[i]
+	c.SectionSerial("long-lived-receiver", 9, func(i int64, r *gen.Rand) {
+		gap := []int{255, 256, 257, 32767, 32768, 32769, 65535, 65536, 65537}[i]
 		typ := uint16(0x0014)
 		a := ref.Encode(0x0101, r.TID(), []ref.Attr{{Type: 0x8022, Value: []byte("a0")}, {Type: 0x0006, Value: []byte("a1")}, {Type: typ, Value: []byte("only-in-a-at-2")}})
 		b := ref.Encode(0x0101, r.TID(), []ref.Attr{{Type: 0x8022, Value: []byte("b0")}, {Type: typ, Value: []byte("first")}, {Type: typ, Value: []byte("second")}, {Type: typ, Value: []byte("third")}})
 		m := new(stun.Message)
-		for round := 0; round < 3; round++ {
+		for round := 0; round < 4; round++ {
 			_ = stun.Decode(a, m)
 			if v, err := m.Get(stun.AttrType(typ)); err != nil || string(v) != "only-in-a-at-2" {
 				c.Violate("get", "Get:long-lived-receiver", map[string]interface{}{"problem": "lookup on message A", "got": string(v)})
@@ -70,14 +79,16 @@ func c02(c *core.Ctx) {
 				return
 			}
 			for k := 0; k < gap; k++ {
-				switch k % 3 {
+				switch round { // one way of refilling per round (each may count differently in whatever counts)
 				case 0:
 					_ = stun.Decode(b, m)
 				case 1:
 					_, _ = m.Write(b)
+				case 2:
+					_ = m.UnmarshalBinary(b)
 				default:
 					m.Reset()
-					_ = m.UnmarshalBinary(b)
+					_ = stun.Decode(b, m)
 				}
 			}
 			c.Eval(1)
@@ -243,6 +254,13 @@ func c02Judge(c *core.Ctx, in []byte, section string, distinctByInput bool) {
 	} else if gen.HashBytes(in)%11 < 3 {
 		// ... or a much longer message: its bytes are still in the buffer behind whatever comes next
 		_ = stun.Decode(c02PreviousBig, m)
+	}
+	if hh := gen.HashBytes(in); rm == nil && hh%7 == 5 && hh%5 != 1 && len(in)%4 == 0 && len(in) >= 4 && len(in) <= 64 {
+		// the receiver last saw (and rejected) a datagram that was cut short - cut by exactly as many bytes as this input
+		// has, and the input is what was missing. It still is no message.
+		whole := ref.Encode(0x0001, [12]byte{3, 1, 4}, []ref.Attr{{Type: 0x0013, Value: append([]byte{0xAB, 0xCD, 0xEF, 0x01}, in...)}})
+		_, _ = m.Write(whole[:len(whole)-len(in)])
+		c.Count("receivers_that_last_saw_the_matching_cut_datagram", 1)
 	}
 	var err error
 	h := gen.HashBytes(in)
